@@ -36,6 +36,17 @@ func init() {
 	for _, keyword := range keywords {
 		reservedKeywords[keyword] = true
 	}
+	// Names that are not JavaScript keywords but which the generated code relies
+	// on: host globals referenced from within package scopes, and object
+	// properties the runtime reads on values of arbitrary Go types. Go identifiers
+	// with these names must be renamed so that they don't shadow them.
+	protected := []string{
+		"console", "DataView", "Number", "Uint8Array", // host globals
+		"constructor", "__proto__", // object protocol
+	}
+	for _, name := range protected {
+		reservedKeywords[name] = true
+	}
 }
 
 // sanitizeName returns the given name unless it is a reserved JavaScript keyword
